@@ -532,6 +532,9 @@ def run_replay(desc, contract, clause_name=None):
             fbody = ftree.body[0].body
             idx = [i for i, st in enumerate(fbody) if ast.unparse(st).replace('"', "'").startswith(frag["after"].replace('"', "'"))]
             hits = [ast.For(target=None, iter=None, body=fbody[idx[0] + 1:], orelse=[])]
+        elif "stmt_top" in frag:
+            fbody = ftree.body[0].body
+            hits = [ast.For(target=None, iter=None, body=[st for st in fbody if ast.unparse(st).replace('"', "'").startswith(frag["stmt_top"].replace('"', "'"))], orelse=[])]
         elif "before" in frag:
             fbody = ftree.body[0].body
             idx = [i for i, st in enumerate(fbody) if ast.unparse(st).replace('"', "'").startswith(frag["before"].replace('"', "'"))]
